@@ -2,6 +2,9 @@ module orbverif
 
 go 1.15
 
-require github.com/paulmach/orb v0.0.0
+require (
+	github.com/paulmach/orb v0.0.0
+	go.mongodb.org/mongo-driver v1.11.4
+)
 
 replace github.com/paulmach/orb => /repo
